@@ -31,8 +31,10 @@ type C12Plan struct {
 
 type C12 struct{}
 
-func (C12) ID() string           { return "C12" }
-func (C12) Title() string        { return "write segmentation x delivery schedule x read-buffer schedule, with hold-back and read-ahead monitors" }
+func (C12) ID() string { return "C12" }
+func (C12) Title() string {
+	return "write segmentation x delivery schedule x read-buffer schedule, with hold-back and read-ahead monitors"
+}
 func (C12) NewPlan() interface{} { return &C12Plan{} }
 func (C12) Runs(tier string) int {
 	if tier == "thorough" {
@@ -43,8 +45,8 @@ func (C12) Runs(tier string) int {
 
 func (C12) Meta() core.Meta {
 	return core.Meta{
-		Level: "exploration",
-		Rule: "enc case = (file, tape, write segmentation incl. empty writes, writes > 1 chunk, writes ending on chunk boundaries) compared byte for byte with the single-write run under the same tape, every Write must return (len,nil), hold-back monitor after every call (plaintext accepted minus plaintext whose ciphertext reached dst <= 65536 [+3 through armor]); dec/dearmor case = (valid or damaged image, set of (delivery schedule, read-size schedule) pairs incl. 1-byte pieces, data-with-EOF, bufio of 16..65536, reads of 0/1/65536/>65536 bytes) compared with the canonical whole-buffer schedule on released bytes and terminal error text, read-ahead monitor on every Read return. Non-trivial = the schedule differs from the canonical one; distinct = distinct (file skeleton, damage, schedule pair).",
+		Level:       "exploration",
+		Rule:        "enc case = (file, tape, write segmentation incl. empty writes, writes > 1 chunk, writes ending on chunk boundaries) compared byte for byte with the single-write run under the same tape, every Write must return (len,nil), hold-back monitor after every call (plaintext accepted minus plaintext whose ciphertext reached dst <= 65536 [+3 through armor]); dec/dearmor case = (valid or damaged image, set of (delivery schedule, read-size schedule) pairs incl. 1-byte pieces, data-with-EOF, bufio of 16..65536, reads of 0/1/65536/>65536 bytes) compared with the canonical whole-buffer schedule on released bytes and terminal error text, read-ahead monitor on every Read return. Non-trivial = the schedule differs from the canonical one; distinct = distinct (file skeleton, damage, schedule pair).",
 		Assumptions: []string{"read-ahead bound: bytes consumed when chunk c is being released <= end of chunk c + one further chunk (65552) + max(4096, size of a bufio the plan put in front) [armored: translated to text columns plus one bufio page and one line]", "exact error text equality between schedules is required (probed sound on this tree)"},
 		Real:        []string{"filippo.io/age Encrypt/Decrypt", "internal/stream", "internal/format", "armor"},
 		Stub:        []string{"destination recorder", "ciphertext source with delivery schedule", "caller's read-buffer schedule", "crypto/rand.Reader (tape)"},
